@@ -17,7 +17,7 @@ META = dict(
                        'marshalStructValueStruct', 'marshalStructValueSlice', '(*Paragraph).Update/WriteTo', 'control.Unmarshal', 'control.decode', 'decodeStruct',
                        'decodeStructValue', 'decodeStructValueStruct', 'decodeStructValueSlice', 'the reader', 'version/dependency marshallers through interface calls'],
     stubs=['reflect (model over the interpreter heap)', 'strconv.Itoa (decimal digits as fresh variables tied to the value by a linear constraint)', 'strings.Split/Join/Trim', 'fmt.Sprintf/Errorf'],
-    bounds={'quick': 'probe structs covering string, int, uint, bool, renamed, required, skipped, multi-line, three list flavours (default, ", " and newline delimited), nested version / dependency / architecture / architecture list, pointer field, embedded Paragraph; string leaves 0-2 symbolic printable characters without outer blanks; int in [-999, 999] and uint in [0, 999] symbolic plus the concrete boundaries (min/max int64, max uint64, 10^18, 10^19); bool symbolic; lists of 0-3 elements of 1-2 characters free of their delimiter',
+    bounds={'quick': 'probe structs covering string, int, uint, bool, renamed, required, skipped, multi-line, three list flavours (default, ", " and newline delimited), nested version / dependency / architecture / architecture list, pointer field, embedded Paragraph; string leaves 0-2 symbolic printable characters without outer blanks; int in [-999, 999] and uint in [0, 999] symbolic plus the concrete boundaries (min/max int64, max uint64, 10^18, 10^19); bool symbolic; lists of 0-3 elements of 1-2 characters free of their delimiter, and with an empty middle element',
             'thorough': 'string leaves up to 3 characters'},
     outside_claim=['kinds the library does not claim (floats, maps, pointer fields on decode)', 'values outside the stated leaf domain (outer blanks, delimiter inside a list element)'],
     assumptions=[])
@@ -43,6 +43,8 @@ def jobs(tier):
         if tier == 'quick' and (nw + nc + nl) % 2 and nw * nc * nl:
             continue
         js.append(dict(name='lists_%d%d%d' % (nw, nc, nl), kind='lists', n=(nw, nc, nl)))
+        if nw == 3 and nc == 3:
+            js.append(dict(name='lists_%d%d%d_empty' % (nw, nc, nl), kind='lists', n=(nw, nc, nl), empty_middle=True))
     for na in (0, 1, 2):
         for dep in ('name', 'name_ver', 'two', 'subst'):
             js.append(dict(name='nested_%d_%s' % (na, dep), kind='nested', na=na, dep=dep))
@@ -90,6 +92,8 @@ def run_job(env, job):
         for pre, n_, alph in (('w', nw, VIS), ('c', nc, ELEM), ('l', nl, bytes(set(VIS) - set(b'.')))):
             for j in range(3):
                 ln = (1 + (j % 2)) if j < n_ else 0
+                if job.get('empty_middle') and j == 1 and pre in ('w', 'c'):
+                    ln = 0      # an empty element between two others ("a, , b")
                 s = symstr('%s%d' % (pre, j), ln)
                 for c in s:
                     assume.append(in_set(c, alph))
